@@ -136,6 +136,13 @@ func matchResidual(resid []residual, fn, what string) int {
 			return i
 		}
 	}
+	// the same construct after it moved to another function (a branch extracted into a helper):
+	// a row whose construct text is specific enough names its operand, which is what the reason is about
+	for i, rs := range resid {
+		if len(rs.conv) >= 24 && strings.Contains(what, rs.conv) {
+			return i
+		}
+	}
 	return -1
 }
 
@@ -1215,6 +1222,26 @@ func onlyDiagnostic(v ssa.Value, depth int) bool {
 				return false
 			}
 			n++
+		case *ssa.Call:
+			// handed to an error constructor (errVarUintTooLarge(b.pos - length)): the parameter
+			// it arrives in only ends in an error value there
+			f := x.Call.StaticCallee()
+			if f == nil || len(f.Blocks) == 0 {
+				return false
+			}
+			okArg := false
+			for k, a := range x.Call.Args {
+				if a == v && k < len(f.Params) {
+					if !onlyDiagnostic(f.Params[k], depth+1) {
+						return false
+					}
+					okArg = true
+				}
+			}
+			if !okArg {
+				return false
+			}
+			n++
 		default:
 			return false
 		}
@@ -1240,6 +1267,40 @@ func boundAtMostParam(env *intervalEnv, f *ssa.Function, bpath string, prm *ssa.
 	bpath = stripConv(bpath)
 	if bpath == "p."+prm.Name() {
 		return true
+	}
+	// bound = g(prm) where the module function g returns at most its argument on every path
+	// (func clampVarLen(max uint64) uint64 { if max > 10 { return 10 }; return max })
+	for _, b := range f.Blocks {
+		for _, in := range b.Instrs {
+			c, ok := in.(*ssa.Call)
+			if !ok || stripConv(ssau.Path(c)) != bpath || len(c.Call.Args) != 1 || c.Call.Args[0] != ssa.Value(prm) {
+				continue
+			}
+			g := c.Call.StaticCallee()
+			if g == nil || env.p == nil || !env.p.InModule(g) || len(g.Blocks) == 0 || len(g.Params) != 1 {
+				continue
+			}
+			genv := newIntervalEnv(env.p, g)
+			okAll := true
+			for _, ret := range returns(g) {
+				if len(ret.Results) != 1 {
+					okAll = false
+					break
+				}
+				rv := ret.Results[0]
+				if rv == ssa.Value(g.Params[0]) {
+					continue
+				}
+				k, isK := ssau.ConstInt(rv)
+				pr, okp := genv.rangeOf(g.Params[0], genv.ff.At(ret), map[ssa.Value]bool{}, 0)
+				if !isK || !okp || pr.lo.Cmp(bi(k)) < 0 {
+					okAll = false
+				}
+			}
+			if okAll {
+				return true
+			}
+		}
 	}
 	for _, b := range f.Blocks {
 		for _, in := range b.Instrs {
